@@ -127,6 +127,23 @@ def grammar():
         st.builds(lambda a, n: f"{a}.{n}", sent, st.sampled_from(PRIV)),
     )
 
+    # well-formed expressions over public members that evaluate successfully and carry a private name only as data
+    pubval = st.sampled_from(['obj.pub', 'obj.name', 'from.child.name', 'obj.meth()', 'len(obj.items)', 'obj.items[1]',
+                              "obj.data['k']", "to['k'].pub", "to['a'].child.pub", 'str(obj)', 'str(from.child)', "'%s' % obj",
+                              "node.to_obj()['name']", "nobj['k'][1]", 'xobj.tag', "xobj.attrib['a']", 'len(node.children())',
+                              'sorted(nobj.keys())', 'str(node.parent)', 'obj.child.child.name', 'list(map(str, [obj, from]))'])
+    privlit = st.sampled_from(["'_x'", "'__dict__'", "'{0._x}'", "'_vf_secret'", "'{a.__priv__}'", "'__class__'"])
+    benign = st.one_of(
+        st.builds(lambda a, b: f"[{a}, {b}]", pubval, privlit),
+        st.builds(lambda a, b: f"{b} in str({a})", pubval, privlit),
+        st.builds(lambda a, b: f"{a} == {b}", pubval, privlit),
+        st.builds(lambda a, b: f"str({a}) + {b}", pubval, privlit),
+        st.builds(lambda a, b: f"{b} % [{a}]", pubval, st.sampled_from(["'%s _x'", "'_x:%r'"])),
+        st.builds(lambda a, b: f"dict([[{b}, {a}]])", pubval, privlit),
+        st.builds(lambda b: f"{b} in obj.data", privlit),
+        st.builds(lambda a, b: f"({a}, {b})[0]", pubval, privlit),
+    )
+
     def member(e):
         return st.builds(lambda x, n: f"{x}.{n}", e, st.sampled_from(PRIV + PUB))
 
@@ -146,7 +163,7 @@ def grammar():
     def paren(e):
         return e.map(lambda x: f"({x})")
 
-    return st.recursive(st.one_of(ident, lit, sent, fmt, fmt),
+    return st.recursive(st.one_of(ident, lit, sent, fmt, fmt, benign, pubval),
                         lambda e: st.one_of(member(e), member(e), call(e), call(e), index(e), lst(e), binop(e), paren(e)),
                         max_leaves=8)
 
